@@ -67,7 +67,7 @@ def space():
             return False   # integration models / masks do not document broadcast starts
         if p['mask'] != 'none' and m != 'cacgmm':
             return False
-        if p['eps'] != 'default' and m not in ('cacgmm', 'cbmm', 'gcacgmm', 'vmfcacgmm'):
+        if p['eps'] != 'default' and m not in ('cacgmm', 'cbmm', 'gcacgmm', 'vmfcacgmm'):   # CWMM asserts eps == 0
             return False
         if (p['norm'] != 'eigenvalue' or p['hermitize'] is not True) and \
                 m not in ('cacgmm', 'gcacgmm', 'vmfcacgmm'):
@@ -543,6 +543,17 @@ def run_deflation(key):
     bad = check_distribution(aff, (F, K, T), 'deflationSeed', K)
     if bad:
         return viol(bad)
+    # the documented options: caller-supplied saliencies, neighbourhood size, clip
+    sal_ = np.linalg.norm(Y, axis=-1) ** 2 + 0.1
+    for kw in (dict(saliencies=sal_), dict(neighbors=2), dict(neighbors=9, eps=1e-3), dict(saliencies=sal_, eps=1e-2)):
+        try:
+            post2 = np.asarray(deflation.deflationSeed(Y, K, permutation_free=key['pf'], **kw))
+        except Exception as e:  # noqa
+            return viol(f'deflationSeed({sorted(kw)}) raised {e!r}')
+        bad = check_distribution(np.moveaxis(post2, 0, -2), (F, K, T), f'deflationSeed({sorted(kw)})', K,
+                                 eps=kw.get('eps', 0.0))
+        if bad:
+            return viol(bad)
     return ok(outcome=tol.digest(post))
 
 
